@@ -178,6 +178,7 @@ public:
         }
         plan.set("doc", "<?xml version='1.0'?><!DOCTYPE r [<!ELEMENT r ANY>" + dtd + "]><r>" + body + "</r>");
         plan.set("limit", wr.chance(1, 5) ? 0 : (int)wr.below(40)); plan.set("api", (int)wr.below(4)); plan.set("scanner", wr.coin() ? 0 : 2); plan.set("entity_ref_nodes", wr.chance(1, 3));
+        plan.set("limit_late", wr.chance(1, 3));      // the application sets the limit after it has installed the manager
         return plan;
     }
 
@@ -285,7 +286,7 @@ private:
             WorldInstall wi(fm, na);
             if (shape != "cycle" && shape != "pe") { ParserBox b(cfg.api); b.configure(cfg); free_ = b.parse(env); }
             cfg.secMgr = true; cfg.entityLimit = limit;
-            { ParserBox b(cfg.api); b.configure(cfg); lim = b.parse(env); }
+            { ParserBox b(cfg.api); b.limitAfterInstall = plan.getb("limit_late"); b.configure(cfg); lim = b.parse(env); }
         } catch (const SimAbort&) { o.violated = true; o.cls = "budget:" + shape; o.detail = "entity processing did not stop within the step budget (limit " + std::to_string(limit) + ")"; }
         delete fm; delete na;
         if (o.violated) return;
@@ -329,7 +330,7 @@ static void serialize(const XNode& n, std::string& o) {
     case 0: { o += "<" + n.name; for (auto& a : n.attrs) o += " " + a.first + "=\"" + xmlEsc(a.second, true) + "\""; if (n.kids.empty()) { o += "/>"; return; } o += ">"; for (auto& k : n.kids) serialize(k, o); o += "</" + n.name + ">"; return; }
     case 1: o += xmlEsc(n.text, false); return;
     case 2: o += "<!--" + n.text + "-->"; return;
-    case 3: { o += "<xi:include"; if (!n.href.empty()) o += " href=\"" + n.href + "\""; if (!n.parse.empty()) o += " parse=\"" + n.parse + "\""; if (!n.encoding.empty()) o += " encoding=\"" + n.encoding + "\""; if (n.xpointer) o += " xpointer=\"element(/1)\"";
+    case 3: { o += "<xi:include"; for (auto& a : n.attrs) o += " " + a.first + "=\"" + xmlEsc(a.second, true) + "\""; if (!n.href.empty()) o += " href=\"" + n.href + "\""; if (!n.parse.empty()) o += " parse=\"" + n.parse + "\""; if (!n.encoding.empty()) o += " encoding=\"" + n.encoding + "\""; if (n.xpointer) o += " xpointer=\"element(/1)\"";
         if (n.nFallback == 0) { o += "/>"; return; } o += ">"; for (int f = 0; f < n.nFallback; f++) { o += "<xi:fallback>"; if (f == 0) for (auto& k : n.fallback) serialize(k, o); o += "</xi:fallback>"; } o += "</xi:include>"; return; }
     case 4: o += "<xi:fallback><e/></xi:fallback>"; return;
     }
@@ -357,7 +358,7 @@ static bool expandInclude(const XWorld& w, const XFile& file, const XNode& inc, 
     if (text) { XNode n; n.kind = 1; n.text = t->isText ? t->textContent : t->storedXml; out.push_back(n); return true; }
     stack.push_back(target);
     if (t->leadingComment) { XNode c; c.kind = 2; c.text = "lead"; out.push_back(c); }
-    XNode root = t->root; std::vector<XNode> kids; bool ok = expandKids(w, *t, t->root.kids, stack, kids, why); root.kids = kids; out.push_back(root);
+    std::vector<XNode> docElem{ t->root }; bool ok = expandKids(w, *t, docElem, stack, out, why);      // (the document element may itself be an xi:include)
     stack.pop_back();
     return ok;
 }
@@ -433,6 +434,10 @@ public:
             if (p.find("nowhere") != std::string::npos) { f.set("missing", true); files.push(f); continue; }
             if (p.compare(p.size() - 4, 4, ".txt") == 0) { std::string enc = textEncOf(p); f.set("text", true); f.set("enc", enc);
                 std::string t = "plain <text> & more"; int n = wr.range(1, 30); for (int i = 0; i < n; i++) t += (enc == "ISO-8859-1" || wr.coin()) ? "caf\xc3\xa9 " : "\xe6\xbc\xa2\xe5\xad\x97 "; f.set("content", bytesEnc(t)); }
+            else if (p != "/sim/x/main.xml" && wr.chance(1, 6) && (size_t)(&p - &paths[0]) + 1 < (size_t)nXml) {      // an included document whose document element is itself an xi:include (of a later file, usually in another directory)
+                XNode inc; inc.kind = 3; size_t me = (size_t)(&p - &paths[0]); std::string target = paths[me + 1 + wr.below((size_t)nXml - me - 1)]; inc.href = relPath(p, target); if (wr.coin()) inc.parse = "xml"; inc.attrs.emplace_back("xmlns:xi", "http://www.w3.org/2001/XInclude");
+                if (wr.chance(1, 3)) { inc.nFallback = 1; inc.fallback.push_back(genContent(wr, paths, p, 2, false)); }
+                f.set("root", xnodeToJson(inc)); f.set("lead", wr.chance(1, 5)); }
             else { XNode root = genContent(wr, paths, p, 0, allowBad); root.name = "d" + std::to_string(&p - &paths[0]); root.attrs.insert(root.attrs.begin(), std::make_pair(std::string("xmlns:xi"), std::string("http://www.w3.org/2001/XInclude"))); f.set("root", xnodeToJson(root)); f.set("lead", wr.chance(1, 5)); }
             if (p != "/sim/x/main.xml" && fr.chance(1, 10)) { unsigned k = (unsigned)fr.below(3); f.set(k == 0 ? "missing" : k == 1 ? "open_fails" : "torn", true); }
             f.set("sched", (cr.coin() ? Schedule() : genSchedule(cr, 2000)).toJson());
